@@ -158,8 +158,12 @@ class Prop:
         if cfg.get("gc_mode") == "storm":
             # cyclic GC at every opportunity (on CPython 3.12 collections happen only on
             # the eval breaker, i.e. at byte-code boundaries: this visits all of them)
+            # (young generations at every opportunity; the oldest one is collected by hand at
+            # the end of every eighth op: when the interpreter would start a full collection of its
+            # own depends on how large the process heap has grown, i.e. on earlier runs)
+            gc.collect()
             gc.enable()
-            gc.set_threshold(1, 1, 1)
+            gc.set_threshold(1, 1, 1 << 30)
             env.probe("gc-storm-run")
         routed = []
         oapi.push_exception_handler(lambda ev: routed.append(ev), reraise_exceptions=False)
@@ -209,6 +213,8 @@ class Prop:
                             self.step(world, handlers, {"k": "probe", "o": j, "name": name}, i,
                                       env, sched, records, pending_expect, stats, allow_k1,
                                       probe=True, pre=pre)
+            if cfg.get("gc_mode") == "storm" and i % 8 == 7:
+                gc.collect()        # (the oldest generation: by hand, now and then)
             env.end_op()
         if not registered:
             registered = self.register_all(world, handlers, len(ops), allow_k1)
